@@ -10,7 +10,7 @@ import (
 
 type World = world
 
-func Build(ids []uint32, parents []int) (*World, error) { return build(ids, parents) }
+func Build(ids []uint32, parents []int) (*World, error)    { return build(ids, parents) }
 func (w *World) Send(i int, sub demonwire.Sub) seam.Result { return w.send(i, sub) }
 func (w *World) TS() *seam.TS                              { return w.ts }
-func (w *World) ID(i int) uint32                            { return w.nodes[i].id }
+func (w *World) ID(i int) uint32                           { return w.nodes[i].id }
